@@ -1,7 +1,8 @@
 (* C11 - The item tree stays well-formed and completion is detected exactly.
    Only property theorems; each closed by [exact] of a lemma proved in Tree/ItemProofs.v
-   (statements fixed in Tree/ItemSpec.v, spelled out here with their quantifiers). *)
-From ZenoV Require Import Tree.Item Tree.ItemSpec Tree.Witness Tree.ItemProofs.
+   (statements fixed in Tree/ItemSpec.v, spelled out here with their quantifiers);
+   C11_dedupe_unique_all: lemma and statement in Tree/DedupeAll.v. *)
+From ZenoV Require Import Tree.Item Tree.ItemSpec Tree.Witness Tree.ItemProofs Tree.DedupeAll.
 Open Scope N_scope.
 
 (* ---- well-formedness through every operation sequence ---------------------------------------
@@ -48,6 +49,18 @@ Theorem C11_dedupe_unique : forall t : item,
   NoDup (nonseed_urls (dedupe t)).
 Proof. exact dedupe_unique_lemma. Qed.
 Print Assumptions C11_dedupe_unique.
+
+(* "Exactly one node per URL" needs none of the pipeline's side conditions: on EVERY tree with
+   unique ids (any shape, any statuses, Fresh nodes with children, several worked-on nodes with
+   one URL, ...) the result of DedupeItems has pairwise distinct URLs on its non-seed nodes.
+   Every visited node that is still attached is the map entry of its URL; a node that loses the
+   entry is detached through its recorded parent; nodes visited inside an already detached
+   subtree are not part of the result.  (Tree/DedupeAll.v proves it for every survivor rule.)
+   The other dedupe theorems do need Inv0: outside it a URL can be lost altogether. *)
+Theorem C11_dedupe_unique_all : forall t : item,
+  NoDup (ids t) -> NoDup (nonseed_urls (dedupe t)).
+Proof. exact dedupe_unique_all_lemma. Qed.
+Print Assumptions C11_dedupe_unique_all.
 
 Theorem C11_dedupe_keeps : forall t : item,
   NoDup (ids t) /\ fresh_leaves t = true /\ NoDup (worked_urls t) ->
